@@ -715,6 +715,11 @@ package mcp
 // across three heap versions that a single solver configuration found, in 17 s of a 30 s limit, and that any
 // unrelated edit of the package could tip over - an alarm waiting to happen on code where the property holds. What
 // stays is decided in milliseconds. See DESIGN.md A.6, round 8.)
+// What stays is quantifier-free: every property gets a path slice of its own, allocated in this call (never the
+// caller's prefix extended in place - siblings would then share one backing array and all end up with the path of
+// the last one), one element longer than the prefix, and that is the prefix handed to the nested properties.
+//@   assert at call json.Unmarshal: @each-property-gets-a-path-of-its-own fresh(local(path)) && len(local(path)) == len(prefix) + 1
+//@   assert at call collectParamHeaderAnnotations: @nested-properties-extend-this-propertys-path $1 == local(path) && fresh(local(path))
 //@   ensures @no-binding-is-dropped len(result) >= len(out)
 //@   loop 1: invariant @no-binding-is-dropped len(local(out)) >= len(out)
 
